@@ -1327,13 +1327,14 @@ impl Vm {
 
         let module = self.module(&path);
         self.push(Value::ObjModule(module));
+        // The new module gets the built-ins before its body is started. (If the call below is
+        // refused, the active module afterwards is the one of whoever handles that error.)
+        self.init_built_in_globals(&path);
 
         let closure = self.new_root_obj_closure(function.as_gc(), module);
         self.push(Value::ObjClosure(closure.as_gc()));
 
         self.call_value(self.peek(0), 0)?;
-        let active_module_path = self.active_module.borrow().path;
-        self.init_built_in_globals(&active_module_path);
         Ok(())
     }
 
